@@ -28,6 +28,7 @@ type genCfg struct {
 	allowSP            bool
 	noBranches         bool
 	opcodes            []string // restrict to these opcodes (curated executable subset), if non-nil
+	indirectJumps      bool     // allow JMP r64 / JMP m64 (branches with a non-label target)
 	jumpBeforeLabelPct int      // % of labels preceded by `JMP label` (possibly twice, possibly with a comment in between)
 	pressureTail       bool     // before the final RET read every virtual register (all simultaneously live)
 }
@@ -381,7 +382,7 @@ func (g *fgen) pickForm(branch bool) *formRow {
 				continue
 			}
 			f = &db.rows[pick(g.r, idxs)]
-			if f.TypeNames[0] != "rel32" && !g.cfg.malformed {
+			if f.TypeNames[0] != "rel32" && !g.cfg.malformed && !g.cfg.indirectJumps {
 				continue
 			}
 			return f
@@ -684,7 +685,11 @@ func encNodes(fn *ir.Function) string {
 					lbl = "=" + hexs(string(ref))
 				}
 			}
-			parts = append(parts, "I", b01(n.IsBranch), b01(n.IsConditional), b01(n.IsTerminal), lbl)
+			opc := n.Opcode
+			if opc == "" {
+				opc = "?"
+			}
+			parts = append(parts, "I", b01(n.IsBranch), b01(n.IsConditional), b01(n.IsTerminal), lbl, opc)
 		}
 	}
 	return strings.Join(parts, " ")
